@@ -148,8 +148,17 @@ def _build_generated():
         ia, ib = lines.index("@<TRIPOS>ATOM"), lines.index("@<TRIPOS>BOND")
         return "\n".join(lines[:ia] + lines[ib:] + lines[ia:ib]) + "\n"
 
-    out["gen_bond_first.mol2"] = ("mol2", bond_first(water) + bond_first(ethane) + hcl.dumps_mol2())
+    # (with partial charges that are not zero: a reader that makes up a charge for a record that lost its charge column
+    #  returns something else than the undamaged file holds)
+    import numpy as _np
+
+    wq = ml.Molecule(water, name="water_q")
+    wq.atomic_charges = _np.array([-0.834, 0.417, 0.417])
+    hq = ml.Molecule(hcl, name="hcl_q")
+    hq.atomic_charges = _np.array([0.188, -0.188])
+    out["gen_bond_first.mol2"] = ("mol2", bond_first(water) + bond_first(ethane) + hcl.dumps_mol2() + bond_first(wq) + bond_first(hq))
     ne2 = mk("neon2", ["Ne"], [[-0.5, 4.75, 2.0]], [])
+    ne2.atomic_charges = _np.array([1.125])
     out["gen_no_bond_tag.mol2"] = ("mol2", ne.dumps_mol2().replace("@<TRIPOS>BOND\n", "") + water.dumps_mol2() + ne2.dumps_mol2().replace("@<TRIPOS>BOND\n", ""))
     out["gen_mixed.xyz"] = ("xyz", "".join(m.dumps_xyz() for m in (water, ethane, hcl)))
     out["gen_edge.xyz"] = ("xyz", "".join(m.dumps_xyz() for m in (ne, water, hcl)))
